@@ -428,7 +428,7 @@ Definition evald (lo hi : Z) (s0 : st) (x y : slot) : Prop :=
 
 Record frame (s s' : st) : Prop := {
   fr_cnt0 : cnt0 s' = cnt0 s; fr_tb : tb s' = tb s; fr_chfl : chfl s' = chfl s; fr_time2 : time2 s' = time2 s;
-  fr_li : li s' = li s; fr_now : now s <= now s';
+  fr_now : now s <= now s';
   fr_outs : exists add, outs s' = add ++ outs s
 }.
 Lemma frame_refl s : frame s s.
@@ -770,6 +770,14 @@ Lemma cd_cb_eq c due s :
                                   (cd_loop c (emit (GEvalStart due (now s)) s))).
 Proof. reflexivity. Qed.
 
+Lemma frame_emit o s : frame s (emit o s).
+Proof. constructor; cbn; try reflexivity; try lia. eexists [_]; reflexivity. Qed.
+Lemma cd_cb_frame c due s : frame s (cd_cb c due s).
+Proof.
+  rewrite cd_cb_eq. eapply frame_trans; [|apply frame_startstop].
+  eapply frame_trans; [|apply frame_emit]. eapply frame_trans; [|apply cd_loop_frame]. apply frame_emit.
+Qed.
+
 Lemma cd_cb_spec c due s s' :
   s' = cd_cb c due s -> Inv s -> Tr s -> NW s' ->
   Good s' /\ frame s s' /\ now s' <= now s + 8 * OP /\
@@ -955,10 +963,7 @@ Proof.
   remember (t2_set ch ms s2) as s3 eqn:Es3.
   assert (F12 : frame s1 s2) by (subst s2; constructor; cbn; try reflexivity; try lia; eexists [_]; reflexivity).
   assert (P23 : passive s2 s3) by (subst s3; apply passive_t2_set).
-  assert (F3' : frame s3 s').
-  { subst s'. destruct e; [apply (frame_trans _ (cd_loop c (emit (GEvalStart (if t_on (tcd s3) then t_due (tcd s3) else now s3) (now s3)) s3)))|apply frame_startstop].
-    - eapply frame_trans; [|apply cd_loop_frame]. constructor; cbn; try reflexivity; try lia. eexists [_]; reflexivity.
-    - rewrite cd_cb_eq. eapply frame_trans; [|apply frame_startstop]. constructor; cbn; try reflexivity; try lia. eexists [_]; reflexivity. }
+  assert (F3' : frame s3 s') by (rewrite Es'; destruct e; [apply cd_cb_frame|apply frame_startstop]).
   assert (F03 : frame s s3) by (eapply frame_trans; [exact FU|]; eapply frame_trans; [exact F12|]; apply frame_passive; auto).
   assert (N3 : NW s3) by (eapply NW_frame; eauto).
   assert (N0 : NW s) by (eapply NW_frame; eauto).
@@ -1010,4 +1015,324 @@ Proof.
     + auto.
     + split; [eapply frame_trans; eauto|]. split; [rewrite E4; destruct consts_ok; unfold OP; lia|].
       apply (evo_trans _ s s3 s'); auto. * lia. * apply evo_same_slots; auto.
+Qed.
+
+(* ---------- commands ---------- *)
+(* every running slot of channel ch was armed at or after time t *)
+Definition fresh (ch t : Z) (s : st) : Prop :=
+  forall y, In y (slots s) -> active y = true -> s_chan y = ch -> t <= g_t0 y.
+
+Lemma s32_range z : -2147483648 <= s32 z < 2147483648.
+Proof.
+  unfold s32. pose proof (Z.mod_pos_bound z 4294967296 ltac:(lia)).
+  destruct (_ <? 2147483648) eqn:E; [apply Z.ltb_lt in E|apply Z.ltb_ge in E]; lia.
+Qed.
+Lemma find_chan_some rs : forall idx ch a r, find_chan rs idx ch = Some (a, r) -> In r rs /\ r_chan r = ch.
+Proof.
+  induction rs as [|x rs IH]; intros idx ch a r H; cbn in H; [discriminate|].
+  destruct (r_chan x =? ch) eqn:E.
+  - injection H as <- <-. apply Z.eqb_eq in E. split; cbn; auto.
+  - apply IH in H. destruct H. split; cbn; auto.
+Qed.
+
+Lemma set_duration_timer_spec e c ch newv dur sender s s' :
+  s' = set_duration_timer e c ch newv dur sender s ->
+  wf_cfg c -> Good s -> 0 <= ch < 8 -> dur < 4294967296 -> NW s' ->
+  Good s' /\ frame s s' /\ now s' <= now s + 8 * OP /\ evo (fun k => k = ch) s s' /\ fresh ch (now s) s'.
+Proof.
+  intros Es' W G Hch Hdur N. unfold set_duration_timer in Es'.
+  set (stair := (ch <? ST_T2_COUNT) && (ch <? T2_COUNT) && (0 <? getz (time2 s) ch)) in *.
+  remember (if stair && (newv =? 0) then set_ram_t2 (setz (ram_t2 s) ch 0) s else s) as s0 eqn:Es0.
+  set (dur1 := if stair then _ else dur) in *.
+  assert (P0 : passive s s0) by (subst s0; destruct (stair && (newv =? 0)); [apply passive_set_ram_t2|apply passive_refl]).
+  assert (N0 : now s0 = now s) by (subst s0; destruct (stair && (newv =? 0)); reflexivity).
+  assert (Hd1 : dur1 < 4294967296).
+  { unfold dur1. destruct stair; auto. destruct (newv =? 0); [lia|]. destruct (_ || _); auto.
+    pose proof (s32_range (getz (time2 s) ch)). lia. }
+  rewrite u8_small in Es' by lia.
+  assert (G0 : Good s0).
+  { destruct G. constructor; [eapply Inv_passive; eauto|eapply Tr_passive; eauto|].
+    intros x Hx Ax. rewrite (pa_slots _ _ P0) in Hx. rewrite (pa_delay _ _ P0), (pa_tcd _ _ P0). auto. }
+  destruct (disarm_spec c ch s0 ltac:(lia) G0) as (G1 & F1 & D1 & C1 & N1 & NoCh & E1 & _).
+  remember (disarm c ch s0) as s1 eqn:Es1. clear Es1.
+  assert (E01 : evo (fun k => k = ch) s s1).
+  { apply (evo_trans _ s s0 s1); [lia|apply evo_passive; auto|]. eapply evo_weaken; [|exact E1]. intros; contradiction. }
+  assert (Fr1 : fresh ch (now s) s1).
+  { intros y Hy Ay Ey. exfalso. apply (NoCh y Hy Ey). }
+  assert (F01 : frame s s1) by (eapply frame_trans; [apply frame_passive; exact P0|exact F1]).
+  assert (OPpos : 0 <= OP) by (destruct consts_ok; unfold OP; lia).
+  destruct (0 <? dur1) eqn:Ed.
+  2:{ subst s'. split; [auto|]. split; [auto|]. split; [lia|]. split; auto. }
+  apply Z.ltb_lt in Ed.
+  destruct (find_chan (c_relays c) 0 ch) as [[a r]|] eqn:EFC.
+  2:{ subst s'. split; [auto|]. split; [auto|]. split; [lia|]. split; auto. }
+  set (f := getz (chfl s1) a) in *.
+  remember (if (newv =? 1) || hasf f CHFLAG_COUNTDOWN
+            then countdown e c (u32 dur1) (r_gpio r) ch (if newv =? 0 then 1 else 0) sender s1 else s1) as s2 eqn:Es2.
+  assert (P23 : passive s2 s') by (subst s'; destruct (hasf f _); [apply passive_ext_changed|apply passive_refl]).
+  assert (N23 : now s' = now s2) by (subst s'; destruct (hasf f _); [apply now_ext_changed|reflexivity]).
+  assert (N2 : NW s2) by (eapply NW_passive; eauto).
+  assert (H2 : Good s2 /\ frame s1 s2 /\ now s2 <= now s1 + 8 * OP /\ evo (fun k => k = ch) s1 s2).
+  { destruct ((newv =? 1) || hasf f CHFLAG_COUNTDOWN).
+    - rewrite u32_small in Es2 by lia. eapply countdown_spec; eauto; lia.
+    - subst s2. split; [auto|]. split; [apply frame_refl|]. split; [lia|apply evo_refl]. }
+  destruct H2 as (G2 & F2 & Nw2 & E2).
+  split; [|split; [|split; [|split]]].
+  - destruct G2. constructor; [eapply Inv_passive; eauto|eapply Tr_passive; eauto|].
+    intros x Hx Ax. rewrite (pa_slots _ _ P23) in Hx. rewrite (pa_delay _ _ P23), (pa_tcd _ _ P23). auto.
+  - eapply frame_trans; [exact F01|]. eapply frame_trans; [exact F2|]. apply frame_passive; auto.
+  - lia.
+  - apply (evo_trans _ s s1 s'); [lia|auto|]. apply (evo_trans _ s1 s2 s'); [destruct F2; lia|auto|apply evo_passive; auto].
+  - intros y Hy Ay Ey. rewrite (pa_slots _ _ P23) in Hy.
+    destruct (E2 y Hy Ay) as [(x & Hx & Ax & (I1 & _) & _)|[A _]]; [|lia].
+    exfalso. apply (NoCh x Hx). congruence.
+Qed.
+
+Lemma Good_passive s s' : passive s s' -> Good s -> Good s'.
+Proof.
+  intros P [I T TT]. constructor; [eapply Inv_passive; eauto|eapply Tr_passive; eauto|].
+  intros x Hx Ax. rewrite (pa_slots _ _ P) in Hx. rewrite (pa_delay _ _ P), (pa_tcd _ _ P). auto.
+Qed.
+Lemma fresh_passive ch t s s' : passive s s' -> fresh ch t s -> fresh ch t s'.
+Proof. intros P F y Hy. rewrite (pa_slots _ _ P) in Hy. auto. Qed.
+
+Lemma channel_set_value_spec e c ch v dur sender s s' :
+  s' = channel_set_value e c ch v dur sender s ->
+  wf_cfg c -> Good s -> NW s' ->
+  Good s' /\ frame s s' /\ now s' <= now s + 9 * OP /\ evo (fun k => k = ch) s s' /\
+  (forall r, In r (c_relays c) -> r_chan r = ch -> fresh ch (now s) s').
+Proof.
+  intros Es' W G N. unfold channel_set_value in Es'.
+  assert (OPpos : 0 <= OP) by (destruct consts_ok; unfold OP; lia).
+  destruct (find_chan (c_relays c) 0 ch) as [[a r]|] eqn:EFC.
+  2:{ assert (P : passive s s') by (subst s'; apply passive_set_result).
+      assert (Nw : now s' = now s) by (subst s'; apply now_set_result).
+      split; [eapply Good_passive; eauto|]. split; [apply frame_passive; auto|]. split; [lia|]. split; [apply evo_passive; auto|].
+      intros r Hr Er. exfalso. clear - EFC Hr Er. revert EFC. generalize 0.
+      induction (c_relays c) as [|x l IH]; intros z H; cbn in *; [contradiction|].
+      destruct (r_chan x =? ch) eqn:E; [discriminate|]. destruct Hr as [<-|Hr]; [apply Z.eqb_neq in E; contradiction|]. eapply IH; eauto. }
+  destruct (find_chan_some _ _ _ _ _ EFC) as [Hr Er]. pose proof (wf_chan _ W r Hr) as Hc. rewrite Er in *.
+  remember (set_duration_timer e c ch v (s32 dur) sender s) as s1 eqn:Es1.
+  pose proof (passive_chan_set_value c (r_gpio r) v ch s1) as P12.
+  pose proof (now_chan_set_value c (r_gpio r) v ch s1) as N12.
+  destruct (chan_set_value c (r_gpio r) v ch s1) as [s2 ok]. cbn [fst] in *.
+  assert (P2' : passive s2 s') by (subst s'; apply passive_set_result).
+  assert (Nw : now s' = now s2) by (subst s'; apply now_set_result).
+  pose proof (passive_trans _ _ _ P12 P2') as P1'.
+  assert (N1 : NW s1) by (eapply NW_passive; eauto).
+  pose proof (s32_range dur).
+  destruct (set_duration_timer_spec e c ch v (s32 dur) sender s s1 Es1 W G Hc ltac:(lia) N1) as (G1 & F1 & Nw1 & E1 & Fr1).
+  split; [eapply Good_passive; eauto|]. split; [eapply frame_trans; [exact F1|apply frame_passive; auto]|].
+  split; [lia|]. split.
+  - apply (evo_trans _ s s1 s'); [destruct F1; lia|auto|apply evo_passive; auto].
+  - intros _ _ _. eapply fresh_passive; eauto.
+Qed.
+
+Lemma last_chan_spec rs port : forall acc, (acc = -1 \/ exists r, In r rs /\ r_chan r = acc) \/ True ->
+  let ch := last_chan rs port acc in ch = acc \/ exists r, In r rs /\ r_chan r = ch /\ r_gpio r = port.
+Proof.
+  induction rs as [|x rs IH]; intros acc _; cbn; auto.
+  destruct (r_gpio x =? port) eqn:E.
+  - apply Z.eqb_eq in E. destruct (IH (r_chan x) (or_intror Logic.I)) as [->|(r & A & B & C)].
+    + right. exists x. cbn; auto.
+    + right. exists r. cbn; auto.
+  - destruct (IH acc (or_intror Logic.I)) as [->|(r & A & B & C)]; auto. right. exists r. cbn; auto.
+Qed.
+
+Lemma relay_switch_spec e c port hi s s' :
+  s' = relay_switch e c port hi s ->
+  wf_cfg c -> Good s -> NW s' ->
+  let ch := last_chan (c_relays c) port (-1) in
+  Good s' /\ frame s s' /\ now s' <= now s + 9 * OP /\ evo (fun k => k = ch) s s' /\ (0 <= ch -> fresh ch (now s) s').
+Proof.
+  intros Es' W G N ch. unfold relay_switch in Es'. fold ch in Es'.
+  assert (OPpos : 0 <= OP) by (destruct consts_ok; unfold OP; lia).
+  destruct (ch <? 0) eqn:Ec.
+  { subst s'. apply Z.ltb_lt in Ec. split; [auto|]. split; [apply frame_refl|]. split; [lia|]. split; [apply evo_refl|]. intros; lia. }
+  apply Z.ltb_ge in Ec.
+  destruct (last_chan_spec (c_relays c) port (-1) (or_intror Logic.I)) as [E|(r & Hr & Er & _)]; [fold ch in E; lia|].
+  fold ch in Er. pose proof (wf_chan _ W r Hr) as Hc. rewrite Er in Hc.
+  destruct consts_ok. destruct cf_t3 as [CT1 CT2].
+  set (hi1 := if _ && _ && _ && _ then HI else hi) in *.
+  set (hi2 := if hi1 =? 255 then _ else hi1) in *.
+  assert (Lt : (ch <? ST_T2_COUNT) = true) by (apply Z.ltb_lt; lia). rewrite Lt in Es'.
+  remember (set_ram_t2 (setz (ram_t2 s) ch 0) s) as s0 eqn:Es0.
+  assert (P0 : passive s s0) by (subst s0; apply passive_set_ram_t2).
+  assert (N0 : now s0 = now s) by (subst s0; reflexivity).
+  remember (set_duration_timer e c ch hi2 0 0 s0) as s1 eqn:Es1.
+  remember (relay_hi c port hi2 s1) as s2 eqn:Es2.
+  assert (P12 : passive s1 s2) by (subst s2; apply passive_relay_hi).
+  assert (N12 : now s2 = now s1 + OP) by (subst s2; apply now_relay_hi).
+  assert (P2' : passive s2 s') by (subst s'; apply passive_value_changed).
+  assert (Nw : now s' = now s2) by (subst s'; apply now_value_changed).
+  pose proof (passive_trans _ _ _ P12 P2') as P1'.
+  assert (N1 : NW s1) by (eapply NW_passive; eauto).
+  destruct (set_duration_timer_spec e c ch hi2 0 0 s0 s1 Es1 W (Good_passive _ _ P0 G) Hc ltac:(lia) N1) as (G1 & F1 & Nw1 & E1 & Fr1).
+  split; [eapply Good_passive; eauto|].
+  split; [eapply frame_trans; [apply frame_passive; exact P0|]; eapply frame_trans; [exact F1|apply frame_passive; auto]|].
+  split; [lia|]. split.
+  - apply (evo_trans _ s s0 s'); [lia|apply evo_passive; auto|]. apply (evo_trans _ s0 s1 s'); [destruct F1; lia|auto|apply evo_passive; auto].
+  - intros _. rewrite <- N0. eapply fresh_passive; eauto.
+Qed.
+
+(* ---------- the timer double: fire / adv / advance ---------- *)
+(* a step that only moves the clock forward and re-arms timers without changing the period of the shared one *)
+Lemma Good_tick s s' :
+  slots s' = slots s -> delay s' = delay s -> cnt0 s' = cnt0 s -> tb s' = tb s -> upc s' = upc s -> upl s' = upl s ->
+  outs s' = outs s -> now s <= now s' ->
+  (t_on (tcd s') = t_on (tcd s) /\ t_per (tcd s') = t_per (tcd s)) ->
+  Good s -> Good s'.
+Proof.
+  intros E1 E2 E3 E4 E5 E6 E7 Hn [E8 E9] [[] [] TT]. unfold ClockOK, TmrOK, slot_at in *.
+  constructor; [constructor|constructor|]; unfold ClockOK, TmrOK, slot_at; rewrite ?E1, ?E2, ?E3, ?E4, ?E5, ?E6, ?E7, ?E8, ?E9; auto.
+  - lia.
+  - intros x Hx Ax. destruct (i_ok0 x Hx Ax). constructor; unfold rd in *; rewrite ?E3, ?E4; auto. lia.
+  - intros * H. destruct (tr_fin0 _ _ _ _ _ _ _ H) as (A & B & C & D & G). repeat split; auto. lia.
+  - intros x Hx Ax. rewrite E1 in Hx. unfold T1 in TT. rewrite E2, E8, E9. apply TT; auto.
+Qed.
+
+Lemma pick_some s end_ i : pick s end_ = Some i -> due_ok (get_t i s) end_ = true.
+Proof.
+  unfold pick. set (P := fun i => due_ok (get_t i s) end_).
+  assert (G : forall l best, (forall b, best = Some b -> P b = true) ->
+            fold_left (fun best i => match best with None => Some i | Some b => if before (get_t i s) (get_t b s) then Some i else Some b end)
+                      (filter P l) best = Some i -> P i = true).
+  { induction l as [|x l IH]; intros best Hb H; cbn in H; [apply Hb; auto|].
+    destruct (P x) eqn:Px; [|eapply IH; eauto]. cbn in H. eapply IH; [|exact H].
+    intros b Eb. destruct best as [b0|]; [destruct (before _ _); injection Eb as <-; auto|injection Eb as <-; auto]. }
+  intros H. apply (G [TCD; TSV; TUP] None); auto. intros; discriminate.
+Qed.
+Lemma pick_none s end_ : pick s end_ = None -> forall i, due_ok (get_t i s) end_ = false.
+Proof.
+  unfold pick. set (P := fun i => due_ok (get_t i s) end_). intros H.
+  assert (E : filter P [TCD; TSV; TUP] = []).
+  { destruct (filter P [TCD; TSV; TUP]) as [|x l] eqn:EF; auto. exfalso.
+    assert (G : forall l best, best <> None ->
+              fold_left (fun best i => match best with None => Some i | Some b => if before (get_t i s) (get_t b s) then Some i else Some b end) l best <> None).
+    { induction l0 as [|y l0 IH]; intros best Hb; cbn; auto. apply IH. destruct best; [destruct (before _ _)|]; discriminate. }
+    cbn in H. apply (G l (Some x)); [discriminate|exact H]. }
+  intros i. assert (In i [TCD; TSV; TUP]) by (destruct i; cbn; auto).
+  destruct (P i) eqn:Pi; auto. assert (In i (filter P [TCD; TSV; TUP])) by (apply filter_In; auto). rewrite E in *. contradiction.
+Qed.
+
+Lemma fire_spec e c i s s' :
+  s' = fire e c i s -> wf_cfg c -> Good s -> t_on (get_t i s) = true -> NW s' ->
+  Good s' /\ frame s s' /\ evo (fun _ => False) s s'.
+Proof.
+  intros Es' W G Hon N. unfold fire in Es'.
+  set (t := get_t i s) in *. set (n := len (c_late c)) in *.
+  set (late := if 0 <? n then getz (c_late c) (li s mod n) else 0) in *.
+  remember (if 0 <? n then set_li (li s + 1) s else s) as s1 eqn:Es1.
+  remember (if now s1 <? t_due t + late then set_now (t_due t + late) s1 else s1) as s2 eqn:Es2.
+  remember (if negb (t_per t =? 0)
+            then set_t i {| t_on := true; t_due := t_due t + t_per t; t_seq := seqc s2 + 1; t_per := t_per t |} (set_seqc (seqc s2 + 1) s2)
+            else set_t i {| t_on := false; t_due := t_due t; t_seq := t_seq t; t_per := 0 |} s2) as s3 eqn:Es3.
+  assert (A1 : slots s1 = slots s /\ delay s1 = delay s /\ cnt0 s1 = cnt0 s /\ tb s1 = tb s /\ upc s1 = upc s /\ upl s1 = upl s /\
+               outs s1 = outs s /\ now s1 = now s /\ tcd s1 = tcd s /\ tsv s1 = tsv s /\ tup s1 = tup s)
+    by (subst s1; destruct (0 <? n); repeat split; reflexivity).
+  destruct A1 as (a1 & a2 & a3 & a4 & a5 & a6 & a7 & a8 & a9 & a10 & a11).
+  assert (A2 : slots s2 = slots s /\ delay s2 = delay s /\ cnt0 s2 = cnt0 s /\ tb s2 = tb s /\ upc s2 = upc s /\ upl s2 = upl s /\
+               outs s2 = outs s /\ now s <= now s2 /\ tcd s2 = tcd s /\ tsv s2 = tsv s /\ tup s2 = tup s).
+  { subst s2. destruct (now s1 <? t_due t + late) eqn:E; [apply Z.ltb_lt in E|]; cbn;
+      rewrite ?a1, ?a2, ?a3, ?a4, ?a5, ?a6, ?a7, ?a8, ?a9, ?a10, ?a11; repeat split; auto; try lia. }
+  destruct A2 as (b1 & b2 & b3 & b4 & b5 & b6 & b7 & b8 & b9 & b10 & b11).
+  assert (TM : TmrOK s) by apply G.
+  assert (A3 : slots s3 = slots s /\ delay s3 = delay s /\ cnt0 s3 = cnt0 s /\ tb s3 = tb s /\ upc s3 = upc s /\ upl s3 = upl s /\
+               outs s3 = outs s /\ now s <= now s3 /\ (t_on (tcd s3) = t_on (tcd s) /\ t_per (tcd s3) = t_per (tcd s))).
+  { subst s3. destruct TM as (D0 & Dz & Dp).
+    destruct i; cbn [set_t]; unfold t, get_t in *.
+    - (* the shared countdown timer is periodic while it is armed *)
+      assert (0 < delay s) by (destruct (Z.eq_dec (delay s) 0) as [Z0|]; [rewrite (Dz Z0) in Hon; discriminate|lia]).
+      destruct (Dp H) as [_ Pp]. assert (t_per (tcd s) <> 0) by lia.
+      destruct (t_per (tcd s) =? 0) eqn:E0; [apply Z.eqb_eq in E0; lia|]. cbn.
+      rewrite b1, b2, b3, b4, b5, b6, b7. repeat split; auto.
+    - destruct (negb _); cbn; rewrite b1, b2, b3, b4, b5, b6, b7, b9; repeat split; auto.
+    - destruct (negb _); cbn; rewrite b1, b2, b3, b4, b5, b6, b7, b9; repeat split; auto. }
+  destruct A3 as (c1 & c2 & c3 & c4 & c5 & c6 & c7 & c8 & c9).
+  assert (G3 : Good s3) by (eapply Good_tick; eauto).
+  assert (F3 : frame s s3).
+  { apply (frame_trans s s1 s3); [|apply (frame_trans s1 s2 s3)].
+    - subst s1. destruct (0 <? n); constructor; cbn; try reflexivity; try lia; exists []; auto.
+    - subst s2. destruct (now s1 <? t_due t + late) eqn:E; [apply Z.ltb_lt in E|]; constructor; cbn; try reflexivity; try lia; exists []; auto.
+    - subst s3. destruct (negb _); destruct i; constructor; cbn; try reflexivity; try lia; exists []; auto. }
+  assert (E3 : evo (fun _ => False) s s3) by (apply evo_same_slots; auto).
+  unfold run_cb in Es'. destruct i.
+  - destruct G3 as [I3 T3 _].
+    destruct (cd_cb_spec c _ s3 s' Es' I3 T3 N) as (G' & F' & _ & EV & _).
+    split; [auto|]. split; [eapply frame_trans; eauto|].
+    apply (evo_trans _ s s3 s'); auto. apply evald_evo; auto. apply (i_len _ (g_inv _ G')).
+  - assert (P : passive s3 s') by (subst s'; apply passive_do_save).
+    split; [eapply Good_passive; eauto|]. split; [eapply frame_trans; [exact F3|apply frame_passive; auto]|].
+    apply (evo_trans _ s s3 s'); auto. apply evo_passive; auto.
+  - assert (F' : frame s3 s').
+    { subst s'. unfold uptime_usec. cbn [fst]. constructor; cbn; try reflexivity; try lia. exists []; auto. }
+    assert (N3 : NW s3) by (eapply NW_frame; eauto).
+    assert (P : passive s3 s').
+    { pose proof (uptime_usec_spec s3 (i_clk _ (g_inv _ G3)) N3) as U. rewrite U in Es'. cbn [fst] in Es'. subst s'.
+      destruct (i_clk _ (g_inv _ G3)) as (A & B & C & D). unfold NW in N3.
+      constructor; cbn; try reflexivity; try lia. - intros _. unfold ClockOK; cbn. lia. - exists []; auto. }
+    split; [eapply Good_passive; eauto|]. split; [eapply frame_trans; eauto|].
+    apply (evo_trans _ s s3 s'); auto. apply evo_passive; auto.
+Qed.
+
+Lemma fire_frame e c i s : frame s (fire e c i s).
+Proof.
+  unfold fire. set (t := get_t i s). set (n := len (c_late c)). set (late := if 0 <? n then _ else 0).
+  set (s1 := if 0 <? n then set_li (li s + 1) s else s).
+  set (s2 := if now s1 <? t_due t + late then set_now (t_due t + late) s1 else s1).
+  set (s3 := if negb (t_per t =? 0) then _ else _).
+  assert (F3 : frame s s3).
+  { apply (frame_trans s s1 s3); [|apply (frame_trans s1 s2 s3)].
+    - unfold s1. destruct (0 <? n); constructor; cbn; try reflexivity; try lia; exists []; auto.
+    - unfold s2. destruct (now s1 <? t_due t + late) eqn:E; [apply Z.ltb_lt in E|]; constructor; cbn; try reflexivity; try lia; exists []; auto.
+    - unfold s3. destruct (negb _); destruct i; constructor; cbn; try reflexivity; try lia; exists []; auto. }
+  eapply frame_trans; [exact F3|]. unfold run_cb. destruct i.
+  - apply cd_cb_frame.
+  - apply frame_passive, passive_do_save.
+  - unfold uptime_usec. cbn [fst]. constructor; cbn; try reflexivity; try lia. exists []; auto.
+Qed.
+Lemma adv_frame e c fuel : forall end_ s, frame s (adv e c fuel end_ s).
+Proof.
+  induction fuel as [|k IH]; intros end_ s; cbn [adv].
+  - apply frame_emit.
+  - destruct (pick s end_); [|apply frame_refl]. eapply frame_trans; [apply fire_frame|apply IH].
+Qed.
+Lemma adv_spec e c fuel : forall end_ s s',
+  s' = adv e c fuel end_ s -> wf_cfg c -> Good s -> NW s' ->
+  Good s' /\ evo (fun _ => False) s s'.
+Proof.
+  induction fuel as [|k IH]; intros end_ s s' Es' W G N; cbn [adv] in Es'.
+  - assert (P : passive s s') by (subst s'; apply passive_emit; exact Logic.I).
+    split; [eapply Good_passive; eauto|apply evo_passive; auto].
+  - destruct (pick s end_) as [i|] eqn:EP.
+    2:{ subst s'. split; auto. apply evo_refl. }
+    apply pick_some in EP. unfold due_ok in EP. apply andb_true_iff in EP. destruct EP as [Hon _].
+    remember (fire e c i s) as s1 eqn:Es1.
+    assert (N1 : NW s1) by (eapply NW_frame; [|exact N]; subst s'; apply adv_frame).
+    destruct (fire_spec e c i s s1 Es1 W G Hon N1) as (G1 & F1 & E1).
+    destruct (IH end_ s1 s' Es' W G1 N) as (G' & E').
+    split; auto. apply (evo_trans _ s s1 s'); auto. apply F1.
+Qed.
+Lemma advance_frame e c dt s : 0 <= dt -> frame s (advance e c dt s).
+Proof.
+  intros Hdt. unfold advance. set (s1 := adv _ _ _ _ _).
+  assert (F : frame s s1) by apply adv_frame.
+  destruct (now s1 <? now s + dt) eqn:E; auto. apply Z.ltb_lt in E.
+  eapply frame_trans; [exact F|]. constructor; cbn; try reflexivity; try lia. exists []; auto.
+Qed.
+Lemma advance_spec e c dt s s' :
+  s' = advance e c dt s -> wf_cfg c -> Good s -> NW s' ->
+  Good s' /\ evo (fun _ => False) s s' /\ now s + dt <= now s'.
+Proof.
+  intros Es' W G N. unfold advance in Es'.
+  remember (adv e c (Z.to_nat (dt / 20000 + 64)) (now s + dt) s) as s1 eqn:Es1.
+  assert (F1 : frame s s1) by (subst s1; apply adv_frame).
+  destruct (now s1 <? now s + dt) eqn:E; [apply Z.ltb_lt in E|apply Z.ltb_ge in E].
+  - assert (N1 : NW s1). { subst s'. unfold NW in *. cbn in N. lia. }
+    destruct (adv_spec e c _ _ s s1 Es1 W G N1) as (G1 & E1).
+    split; [|split].
+    + subst s'. eapply Good_tick; [..|exact G1]; try reflexivity; cbn; try lia. split; reflexivity.
+    + apply (evo_trans _ s s1 s'); [apply F1|auto|]. subst s'. apply evo_same_slots. reflexivity.
+    + subst s'. cbn. lia.
+  - subst s'. destruct (adv_spec e c _ _ s s1 Es1 W G N) as (G1 & E1). split; [auto|]. split; [auto|lia].
 Qed.
